@@ -2,9 +2,10 @@
 """Print the prompt handed to a mutation sub-agent for one property (only the property text + a scratch worktree)."""
 import json,sys
 pid=sys.argv[1]
+rnd=sys.argv[2] if len(sys.argv)>2 else ''
 p=[json.loads(l) for l in open('/verif/properties.jsonl') if json.loads(l)['id']==pid][0]
-wt='/tmp/wt-%s'%pid
-out='/tmp/seedout/%s'%pid
+wt='/tmp/wt%s-%s'%(rnd,pid)
+out='/tmp/seedout%s/%s'%(rnd,pid)
 print(f"""You are helping to evaluate a verification effort by writing *seeded defects* for the C++11 header-only Monte Carlo integration library cschwan/hep-mc.
 
 Your scratch git worktree of the library is at {wt} (headers under {wt}/include/hep/mc, tests under {wt}/tests, docs under {wt}/doc). Work ONLY inside {wt} and write your deliverables to {out}/ . Never touch /repo or /verif and do not read anything under /verif.
@@ -21,7 +22,7 @@ Task: produce TWO different, independent changes to the library (different mecha
   1. breaks the property above for some input / configuration / sequence of operations,
   2. still compiles and still passes the library's whole existing test suite (build it in your worktree: `cd {wt} && meson setup _build >/dev/null && meson test -C _build`; all 19 tests must be OK with the change applied; MPI is installed (mpicxx, `mpirun --allow-run-as-root --oversubscribe -np N`) but the suite is built without it),
   3. looks like a realistic mistake or plausible "optimisation/refactoring" a maintainer could make (a few lines; no deliberately weird code, no comments that give it away),
-  4. needs something SPECIFIC to manifest - e.g. a particular interleaving or world size, a multi-step sequence of operations (save / reload / rollback / resume), an unusual but legal input (boundary value, zero weight, empty name, non-finite value, calls < ranks ...), a particular numeric type or engine, or two cooperating sites that each look fine alone. Do NOT produce a change that ordinary use would expose at once (e.g. every result being wrong by a factor 2).
+  4. needs something SPECIFIC to manifest - e.g. a particular interleaving or world size, a multi-step sequence of operations (save / reload / rollback / resume), an unusual but legal input (boundary value, zero weight, empty name, non-finite value, calls < ranks ...), a particular numeric type or engine, or two cooperating sites that each look fine alone. Do NOT produce a change that ordinary use would expose at once (e.g. every result being wrong by a factor 2). Prefer mechanisms a careful reviewer would still find subtle: an interaction between two features (e.g. distributions + checkpoints, MPI + early stop, rollback + resume, adaptation + non-finite values), a boundary condition, or a dependence on numeric type, engine, world size or call count.
 
 For each variant X in {{a,b}} write into {out}/X/ :
   - patch.diff : `git diff` of the change against the worktree's HEAD (must apply with `git apply` on a clean checkout of the same commit),
